@@ -120,3 +120,16 @@ Print Assumptions C20_no_effect_Preset.
 Theorem C20_preset_table : forall p q, options_for_preset p q = doc_preset p q.
 Proof. exact preset_table. Qed.
 Print Assumptions C20_preset_table.
+
+(** The rate control (lossy.initPassStats) resolves QMax a third time.  Every explicit positive
+    value is honoured; for the explicit value 0 the statement is decided by the regenerated
+    source rule: honoured, or (pinned tree, `qmax <= 0`) replaced by 100, which refutes the
+    documented contract [ratectl_honours_explicit_qmax] (known finding explicit-value-ignored:QMax). *)
+Theorem C20_ratectl_qmax_positive_honoured_partial : forall v, 0 < v <= 100 -> ratectl_qmax v = v.
+Proof. exact ratectl_qmax_positive_honoured. Qed.
+Print Assumptions C20_ratectl_qmax_positive_honoured_partial.
+
+Theorem C20_ratectl_qmax_zero_honoured_or_refuted :
+  ratectl_qmax 0 = 0 \/ (ratectl_qmax 0 = 100 /\ ~ (forall v, 0 <= v <= 100 -> ratectl_qmax v = v)).
+Proof. exact ratectl_qmax_zero. Qed.
+Print Assumptions C20_ratectl_qmax_zero_honoured_or_refuted.
